@@ -13,6 +13,7 @@ mod c01;
 mod c03;
 mod c04;
 mod c05;
+mod c07;
 mod c09;
 mod c11;
 mod c13;
@@ -72,6 +73,7 @@ fn main() {
         "c09_ids" => c09::ids(thorough),
         "c04_apply" => c04::apply(thorough),
         "c05_runtime" => c05::runtime(thorough),
+        "c07_toml" => c07::toml_text(thorough),
         "c19_writers" => c19::writers(thorough),
         "c03_env_files" => c03::env_files(thorough),
         "c10_layer_paths" => c03::layer_paths(thorough),
